@@ -240,7 +240,7 @@ func (k *corruptor) entry(class, variant string) (*goodEntry, error) {
 
 type cresult struct {
 	Outcome, Detail, What string
-	FileLen, Blocks     int
+	FileLen, Blocks       int
 }
 
 // run executes one case on one variant; rep selects the seeded offset.
